@@ -6,7 +6,7 @@ encoding on witnesses of passing paths (a mismatch is a harness error, never a p
 import os, sys, json, tempfile, shutil, sqlite3
 from fractions import Fraction
 import z3
-from .engine import conc, model_value, SStr, SNum, SBool
+from .engine import conc, model_value, SStr, SNum, SBool, Decoder
 from . import world as W_
 
 import wormhole_mailbox_server.server as S
@@ -21,18 +21,24 @@ def _num(x):
     return x
 
 
-def _rows_of(snap, model, only=None):
+def _rows_of(snap, dec, only=None):
     out = {}
     for t, rows in snap.tables.items():
         if only and t not in only:
             continue
+        kinds = {c["name"]: c["sort"] for c in snap.catalog[t]}
         lst = []
         for r in rows:
-            if not model_value(model, r.p):
+            if not dec.num(r.p):
                 continue
             d = {}
             for c in r.v:
-                d[c] = None if model_value(model, r.n[c]) else _num(model_value(model, r.v[c]))
+                if dec.num(r.n[c]):
+                    d[c] = None
+                elif kinds[c] == "s":
+                    d[c] = dec.string(r.v[c])
+                else:
+                    d[c] = _num(dec.num(r.v[c]))
             lst.append(d)
         out[t] = lst
     return out
@@ -41,6 +47,7 @@ def _rows_of(snap, model, only=None):
 def concretise_script(world, model):
     """SymWorld (after a path) + model -> JSON-able replay description incl. predicted observations"""
     acts = []
+    model = Decoder(model)
     for a in world.script:
         k = a[0]
         if k == "config":
@@ -50,7 +57,7 @@ def concretise_script(world, model):
             cfg["welcome"] = conc(model, cfg["welcome"])
             acts.append(["config", cfg])
         elif k == "env":
-            acts.append(["env", a[1], _num(model_value(model, a[2]))])
+            acts.append(["env", a[1], _num(conc(model, a[2]))])
         elif k == "conn":
             acts.append(["conn", a[1], a[2]])
         elif k == "deliver":
@@ -62,10 +69,10 @@ def concretise_script(world, model):
         elif k == "load":
             ch = _rows_of(a[1], model, W_.CHANNEL_TABLES)
             us = _rows_of(a[2], model) if a[2] is not None else None
-            nid = model_value(model, a[1].next_id["nameplates"])
+            nid = model.num(a[1].next_id["nameplates"])
             acts.append(["load", ch, us, nid])
         elif k == "expire":
-            acts.append(["expire"])
+            acts.append(["expire", a[1]])
         elif k == "prune":
             acts.append(["prune", _num(conc(model, a[1])), _num(conc(model, a[2]))])
         elif k == "fault":
@@ -82,7 +89,8 @@ def concretise_script(world, model):
             obs.append([o[0]] + [_jsonable(conc(model, x)) for x in o[1:]])
     final = _rows_of(world.db.snapshot(), model, W_.CHANNEL_TABLES)
     final_usage = _rows_of(world.usage.snapshot(), model) if world.usage is not None else None
-    return dict(script=acts, predicted=dict(obs=obs, final=final, final_usage=final_usage))
+    return dict(script=acts, predicted=dict(obs=obs, final=final, final_usage=final_usage),
+                want_mem=any(o[0] == "mem" for o in world.obs))
 
 
 def _jsonable(x):
@@ -141,6 +149,25 @@ class ScriptedEnv:
         return out
 
 
+class ConnProxy:
+    """thin delegating wrapper around a real sqlite3 connection (fault injection, counting)"""
+
+    def __init__(self, real):
+        self._real = real
+        self.n = 0
+        self.fault_at = None
+
+    def execute(self, *a, **k):
+        i = self.n
+        self.n += 1
+        if self.fault_at is not None and i == self.fault_at:
+            raise sqlite3.OperationalError("database is locked")
+        return self._real.execute(*a, **k)
+
+    def __getattr__(self, name):
+        return getattr(self._real, name)
+
+
 class RealFactory:
     def __init__(self, server):
         self.server = server
@@ -168,9 +195,26 @@ def run_script(cs, keep_dir=None):
     def make_server():
         c = st["cfg"]
         w = c["welcome"]
-        st["server"] = S.make_server(st["db"], allow_list=c["allow_list"], blur_usage=c["blur"],
-                                     usage_db=st["usage"], advertise_version=w.get("current_cli_version"),
-                                     signal_error=w.get("error"), welcome_motd=w.get("motd"))
+        opts = TAP.Options()
+        opts["blur-usage"] = c["blur"]
+        opts["allow-list"] = c["allow_list"]
+        opts["advertise-version"] = w.get("current_cli_version")
+        opts["signal-error"] = w.get("error")
+        opts["motd"] = w.get("motd")
+        opts["channel-db"] = chpath
+        opts["usage-db"] = uspath if c["usage"] else None
+        opts["port"] = "tcp:0"
+        saved = (TAP.increase_rlimits, TAP.create_or_upgrade_channel_db, TAP.create_or_upgrade_usage_db)
+        TAP.increase_rlimits = lambda: None
+        TAP.create_or_upgrade_channel_db = lambda path: st["db"]
+        TAP.create_or_upgrade_usage_db = lambda path: (st["usage"] if path is not None else None)
+        try:
+            parent = TAP.makeService(opts)
+        finally:
+            TAP.increase_rlimits, TAP.create_or_upgrade_channel_db, TAP.create_or_upgrade_usage_db = saved
+        from twisted.application.internet import TimerService
+        st["server"] = [x for x in parent if isinstance(x, S.Server)][0]
+        st["timer"] = [x for x in parent if isinstance(x, TimerService)][0]
 
     def dirty():
         return bool(st["db"].in_transaction or (st["usage"] is not None and st["usage"].in_transaction))
@@ -180,8 +224,8 @@ def run_script(cs, keep_dir=None):
             k = a[0]
             if k == "config":
                 st["cfg"] = a[1]
-                st["db"] = DBM.create_or_upgrade_channel_db(chpath)
-                st["usage"] = DBM.create_or_upgrade_usage_db(uspath) if a[1]["usage"] else None
+                st["db"] = ConnProxy(DBM.create_or_upgrade_channel_db(chpath))
+                st["usage"] = ConnProxy(DBM.create_or_upgrade_usage_db(uspath)) if a[1]["usage"] else None
                 make_server()
             elif k == "env":
                 pass
@@ -221,8 +265,8 @@ def run_script(cs, keep_dir=None):
                 if st["usage"] is not None:
                     st["usage"].close()
                 try:
-                    st["db"] = DBM.create_or_upgrade_channel_db(chpath)
-                    st["usage"] = DBM.create_or_upgrade_usage_db(uspath) if st["cfg"]["usage"] else None
+                    st["db"] = ConnProxy(DBM.create_or_upgrade_channel_db(chpath))
+                    st["usage"] = ConnProxy(DBM.create_or_upgrade_usage_db(uspath)) if st["cfg"]["usage"] else None
                 except DBM.DBError as ex:
                     obs.append(["exc", "restart", "DBError"])
                     break
@@ -232,8 +276,20 @@ def run_script(cs, keep_dir=None):
                 if st["usage"] is not None:
                     _load_usage(st["usage"], a[2])
                 st["phase"] = "step"
+            elif k == "expire":
+                W_.NullLog.errors = []
+                try:
+                    st["timer"].call[0](*st["timer"].call[1], **st["timer"].call[2])
+                except Exception as ex:
+                    if a[1] == "step":
+                        obs.append(["exc", "expire", type(ex).__name__])
+                if a[1] == "step":
+                    obs.append(["sweep_errors", len(W_.NullLog.errors)])
             elif k == "setattr":
                 setattr(st["conns"][a[1]], a[2], a[3])
+            elif k == "fault":
+                tgt = st["db"] if a[1] == "channel" else st["usage"]
+                tgt.fault_at = None if a[2] is None else tgt.n + a[2]
             elif k == "prune":
                 try:
                     st["server"].prune_all_apps(a[1], a[2])
@@ -241,6 +297,8 @@ def run_script(cs, keep_dir=None):
                     obs.append(["exc", "prune", type(ex).__name__])
             else:
                 env.problems.append("replay: unknown action %r" % (k,))
+        if cs.get("want_mem"):
+            obs.append(["mem", inv_mem_concrete(st["server"], list(st["conns"].values()), st["db"])])
         final = _dump(st["db"], W_.CHANNEL_TABLES)
         final_usage = _dump(st["usage"], None) if st["usage"] is not None else None
     finally:
@@ -256,6 +314,38 @@ def run_script(cs, keep_dir=None):
             pass
         shutil.rmtree(d, ignore_errors=True)
     return dict(obs=obs, final=final, final_usage=final_usage, problems=env.problems + env.leftovers())
+
+
+def inv_mem_concrete(srv, live, db):
+    """INV_MEM (M1..M5 of DESIGN.md §4.2) evaluated on the real objects"""
+    res = dict(M1=True, M2=True, M3=True, M4=True, M5=True)
+    for k, ns in srv._apps.items():
+        if k != ns._app_id:
+            res["M1"] = False
+    for c in live:
+        if c._app is not None and srv._apps.get(c._app._app_id) is not c._app:
+            res["M2"] = False
+    for k, ns in srv._apps.items():
+        for mk, mb in ns._mailboxes.items():
+            if mk != mb._mailbox_id or mb._app is not ns:
+                res["M3"] = False
+            for h in mb._listeners.keys():
+                if h not in live or h._mailbox is not mb or not h._listening:
+                    res["M5"] = False
+    for c in live:
+        if c._mailbox is not None:
+            mb = c._mailbox
+            if not c._listening or c not in mb._listeners:
+                res["M4"] = False
+                continue
+            if c._app is None or c._app._mailboxes.get(mb._mailbox_id) is not mb:
+                res["M4"] = False
+                continue
+            a = db.execute("SELECT * FROM mailboxes WHERE app_id=? AND id=?", (mb._app_id, mb._mailbox_id)).fetchone()
+            b = db.execute("SELECT * FROM mailbox_sides WHERE mailbox_id=? AND side=?", (mb._mailbox_id, c._side)).fetchone()
+            if not a or not b:
+                res["M4"] = False
+    return res
 
 
 def _load(db, rows, next_id):
